@@ -41,3 +41,181 @@ def set_padding(m, meta):
     f = next(it)
     ok = tuple(f.render_size) == (80, 22)
     return {"reproduced": not ok, "input": "set_padding(AlignedPadding(0, -2)) on an 80x24 terminal", "observed": tuple(f.render_size), "expected": (80, 22)}
+
+
+# ---------------------------------------------------------------------------------------------------------------
+# seeded search of the function-level contract (DESIGN 2.5): random operation histories on the real RenderIterator
+# against the documented abstract machine, cache on and off (C08 conformance, C09 cache invisibility, C10 typestate)
+# ---------------------------------------------------------------------------------------------------------------
+def histories(m, meta, n_hist=3000, seed=7):
+    import os, random, gc
+    import term_image.render._iterator as IT
+    from term_image.renderable import Renderable, Frame, FrameDuration, RenderArgs, Seek, ArgsNamespace
+    from term_image.render import RenderIterator, FinalizedIteratorError
+    from term_image.padding import AlignedPadding, ExactPadding
+    from term_image.geometry import Size
+    IT.get_terminal_size = lambda: os.terminal_size((80, 30))
+
+    class Foo(Renderable):
+        renders = 0
+        fin = {}
+        used_after_fin = 0
+
+        def __init__(self, n, dur=10):
+            super().__init__(n, dur)
+
+        def _get_render_size_(self):
+            return Size(2, 2)
+
+        def _render_(self, render_data, render_args):
+            d = render_data[Renderable]
+            if render_data.finalized:
+                Foo.used_after_fin += 1
+            Foo.renders += 1
+            a = render_args[Foo].x
+            w, h = d.size
+            dur = d.duration if d.duration is not FrameDuration.DYNAMIC else 77
+            return Frame(d.frame_offset, dur, d.size, "\n".join((str(d.frame_offset % 10) + str(a))[:w].ljust(w, ".") for _ in range(h)))
+
+        @classmethod
+        def _finalize_render_data_(cls, rd):
+            Foo.fin[id(rd)] = Foo.fin.get(id(rd), 0) + 1
+            super()._finalize_render_data_(rd)
+
+    class FooArgs(ArgsNamespace, render_cls=Foo):
+        x: int = 0
+
+    def model_run(N, loops, ops):
+        nxt, loop, closed, size, dur, x, pad = 0, loops, False, Size(2, 2), 10, 0, ExactPadding()
+        tr = []
+        for op in ops:
+            k = op[0]
+            if k == "next":
+                if closed:
+                    tr.append(("stop",))
+                    continue
+                if nxt >= N:
+                    nxt = 0
+                    if loop > 0:
+                        loop -= 1
+                    if loop == 0:
+                        closed = True
+                        tr.append(("stop",))
+                        continue
+                ps = pad.get_padded_size(size)
+                tr.append(("frame", nxt, dur if dur is not FrameDuration.DYNAMIC else 77, tuple(ps), x, loop))
+                nxt += 1
+                continue
+            if k == "close":
+                closed = True
+                tr.append(("ok",))
+                continue
+            if closed:
+                tr.append(("fin",))
+                continue
+            if k == "seek":
+                off, wh = op[1], op[2]
+                f = off if wh is Seek.START else (nxt + off if wh is Seek.CURRENT else N + off - 1)
+                if not 0 <= f < N:
+                    tr.append(("verr",))
+                    continue
+                nxt = f
+            elif k == "size":
+                size = op[1]
+            elif k == "dur":
+                if isinstance(op[1], int) and op[1] <= 0:
+                    tr.append(("verr",))
+                    continue
+                dur = op[1]
+            elif k == "args":
+                x = op[1]
+            elif k == "pad":
+                p = op[1]
+                if isinstance(p, AlignedPadding) and p.relative:
+                    p = p.resolve(os.terminal_size((80, 30)))
+                pad = p
+            tr.append(("ok",))
+        return tr
+
+    def _x(f):
+        for line in f.render_output.split("\n"):
+            s = line.strip()
+            if len(s) >= 2 and s[0].isdigit():
+                return int(s[1]) if s[1].isdigit() else None
+        return None
+
+    def real_run(N, loops, cache, ops):
+        r = Foo(N)
+        it = RenderIterator(r, loops=loops, cache=cache)
+        tr = []
+        for op in ops:
+            k = op[0]
+            try:
+                if k == "next":
+                    try:
+                        f = next(it)
+                        tr.append(("frame", f.number, f.duration, tuple(f.render_size), _x(f), it.loop))
+                    except StopIteration:
+                        tr.append(("stop",))
+                elif k == "seek":
+                    it.seek(op[1], op[2]); tr.append(("ok",))
+                elif k == "size":
+                    it.set_render_size(op[1]); tr.append(("ok",))
+                elif k == "dur":
+                    it.set_frame_duration(op[1]); tr.append(("ok",))
+                elif k == "args":
+                    it.set_render_args(RenderArgs(Foo, FooArgs(op[1]))); tr.append(("ok",))
+                elif k == "pad":
+                    it.set_padding(op[1]); tr.append(("ok",))
+                elif k == "close":
+                    it.close(); tr.append(("ok",))
+            except FinalizedIteratorError:
+                tr.append(("fin",))
+            except ValueError:
+                tr.append(("verr",))
+            except Exception as e:
+                tr.append(("EXC", type(e).__name__))
+        moved = r.tell() != 0
+        return tr, it, moved
+
+    rng = random.Random(seed)
+
+    def rnd_ops(N):
+        ops = []
+        for _ in range(rng.randint(1, 25)):
+            c = rng.random()
+            if c < 0.5: ops.append(("next",))
+            elif c < 0.7: ops.append(("seek", rng.randint(-N - 1, N + 1), rng.choice(list(Seek))))
+            elif c < 0.78: ops.append(("size", Size(rng.randint(2, 4), rng.randint(1, 3))))
+            elif c < 0.84: ops.append(("dur", rng.choice([5, 20, FrameDuration.DYNAMIC, 0, -3])))
+            elif c < 0.9: ops.append(("args", rng.randint(0, 3)))
+            elif c < 0.96: ops.append(("pad", rng.choice([ExactPadding(1, 0, 2, 1), AlignedPadding(6, 4), AlignedPadding(1, 1), ExactPadding(), AlignedPadding(0, -2)])))
+            else: ops.append(("close",))
+        return ops
+
+    for t in range(n_hist):
+        N = rng.randint(2, 5)
+        loops = rng.choice([1, 2, 3, -1])
+        ops = rnd_ops(N)
+        mod = model_run(N, loops, ops)
+        res = {}
+        for cache in (False, True):
+            Foo.renders = 0
+            Foo.fin.clear()
+            Foo.used_after_fin = 0
+            tr, it, moved = real_run(N, loops, cache, ops)
+            it.close()
+            del it
+            gc.collect()
+            res[cache] = tr
+            fin_counts = list(Foo.fin.values())
+            if moved or Foo.used_after_fin or fin_counts != [1]:
+                return {"reproduced": True, "input": {"frames": N, "loops": loops, "cache": cache, "ops": repr(ops)},
+                        "observed": {"renderable_moved": moved, "render_with_finalized_data": Foo.used_after_fin, "finalize_calls": fin_counts}}
+        norm = lambda tr: [x[:5] + ((x[5] if loops > 0 else -1),) if x[0] == "frame" else x for x in tr]
+        if res[False] != res[True]:
+            return {"reproduced": True, "input": {"frames": N, "loops": loops, "ops": repr(ops)}, "observed": {"uncached": res[False], "cached": res[True]},
+                    "expected": "identical traces with caching on and off"}
+        if norm(res[False]) != norm(mod):
+            return {"reproduced": True, "input": {"frames": N, "loops": loops, "ops": repr(ops)}, "observed": res[False], "expected(model)": mod}
+    return {"reproduced": False, "note": f"{n_hist} seeded random histories (cache on/off) agree with the documented machine"}
